@@ -31,9 +31,11 @@ AddrViol(e) == IF e.out.mapped # Covers(table, e.letter.page) THEN {"C13/address
 \* translation of frontend virtual addresses (SET_VRING_ADDR)
 XlatViol(e) ==
     LET r == e.letter.rid
-        inT == r \in table
+        \* edge = "end": the descriptor table is placed at the first user address past region r, which no region contains
+        inT == r \in table /\ ~("edge" \in DOMAIN e.letter /\ e.letter.edge = "end")
         ring == e.barriers[1].rings[e.q + 1] IN
-    IF (e.status = "ok") # inT THEN {"C13/translation/address-in-table=" \o Str(inT) \o "/accepted=" \o Str(e.status = "ok")}
+    IF (e.status = "ok") # inT THEN {"C13/translation/address-in-table=" \o Str(inT) \o "/accepted=" \o Str(e.status = "ok")
+                                           \o (IF "edge" \in DOMAIN e.letter THEN "/at-region-" \o e.letter.edge ELSE "")}
     ELSE IF inT /\ (ring.desc # Sum4(pool[r + 1].gpa, e.letter.odesc) \/ ring.avail # Sum4(pool[r + 1].gpa, e.letter.oavail)
                     \/ ring.used # Sum4(pool[r + 1].gpa, e.letter.oused)) THEN {"C13/translation/wrong-guest-address"}
     ELSE {}
